@@ -1,9 +1,10 @@
 // C20 harness support (generic part of the generated per-program main TU).
 //
-// One executable per program.  `exe <backend> [N]` runs the backend for N in {0,1,3,4} (or the given N):
-//   BEGIN <N>
-//   R <backend> <N> ok|differ|launch-error|exception  <detail>
-//   END <N>
+// One executable per chunk of programs.  `exe <program> all` runs every backend (the gpuemu ones once per work-item
+// order) for N in {0,1,3,4}; `exe <program> <backend> [N]` one backend (for crash attribution and replay):
+//   BEGIN <backend[@desc]> <N>
+//   R <backend[@desc]> <N> ok|differ|launch-error|exception|race  <detail>      (race: only in the race-pass executable)
+//   END <backend[@desc]> <N>
 // Arrays are exact-size malloc blocks (ASan red zones on both sides; a zero-length array is a malloc(0)
 // block, every access to it is reported).  Inputs are index patterns, outputs start as a sentinel, counters
 // as 0.  The reference (sequential reading, plain C++) runs on its own copies.
@@ -16,6 +17,14 @@
 #include <exception>
 #include <string>
 #include <vector>
+
+// race pass (engines/gpuemu/race_runtime.cpp): present only in the executable whose device TUs are TSan-instrumented
+extern "C" {
+  void gpuemu_race_reset() __attribute__((weak));
+  void gpuemu_race_add_range(const char *name, const void *ptr, size_t bytes) __attribute__((weak));
+  const char* gpuemu_race_report() __attribute__((weak));
+  size_t gpuemu_race_accesses() __attribute__((weak));
+}
 
 namespace c20 {
   const int SENTINEL = -777777;
@@ -65,7 +74,11 @@ namespace c20 {
   struct Backend {
     const char *name;
     RunFn run;
+    bool launched;     // runs under gpuemu: executed once per work-item order (ascending, descending)
   };
+
+  // switches the order in which gpuemu runs the work-items of a group; defined in the generated TU
+  void setItemOrder(bool descending);
 
   // returns true when equal; otherwise detail describes the first difference and the number of differing cells
   inline bool compare(const Data &got, const Data &want, const ArraySpec *specs, std::string &detail) {
@@ -99,51 +112,104 @@ namespace c20 {
   // describes exceptions of the emulator / the OCCA runtime; defined in the generated TU (needs their headers)
   std::string describeException();
 
+  struct ProgramEntry {
+    const char *name;
+    const Backend *backends;
+    int nbackends;
+    RunFn reference;
+    const ArraySpec *specs;
+    int nspecs;
+  };
+
+  inline int drive(int argc, char **argv, const Backend *backends, int nbackends, RunFn reference,
+                   const ArraySpec *specs, int nspecs);
+
+  // exe <program> <backend|all> [N]
+  inline int driveChunk(int argc, char **argv, const ProgramEntry *programs, int nprograms) {
+    if (argc < 3) {
+      std::fprintf(stderr, "usage: exe <program> <backend|all> [N]\n");
+      return 2;
+    }
+    for (int i = 0; i < nprograms; ++i) {
+      if (!std::strcmp(programs[i].name, argv[1])) {
+        return drive(argc - 1, argv + 1, programs[i].backends, programs[i].nbackends, programs[i].reference,
+                     programs[i].specs, programs[i].nspecs);
+      }
+    }
+    std::printf("NOPROGRAM %s\n", argv[1]);
+    return 3;
+  }
+
   inline int drive(int argc, char **argv, const Backend *backends, int nbackends, RunFn reference,
                    const ArraySpec *specs, int nspecs) {
     if (argc < 2) {
-      std::fprintf(stderr, "usage: exe <backend> [N]\n");
+      std::fprintf(stderr, "usage: exe <program> <backend|all> [N]\n");
       return 2;
     }
-    const Backend *b = 0;
-    for (int i = 0; i < nbackends; ++i) if (!std::strcmp(backends[i].name, argv[1])) b = &backends[i];
-    if (!b) {
-      std::printf("NOBACKEND %s\n", argv[1]);
-      return 3;
-    }
+    // exe all            every backend (launched ones in both work-item orders), every N
+    // exe <backend> [N]   one backend; work-item order from the environment (GPUEMU_ITEM_ORDER)
+    const bool all = !std::strcmp(argv[1], "all");
     std::vector<int> ns;
     if (argc > 2) ns.push_back(std::atoi(argv[2]));
     else { ns.push_back(0); ns.push_back(1); ns.push_back(3); ns.push_back(4); }
-    for (size_t t = 0; t < ns.size(); ++t) {
-      const int N = ns[t];
-      std::printf("BEGIN %d\n", N);
-      std::fflush(stdout);
-      Data want, got;
-      allocate(want, N, specs, nspecs);
-      allocate(got, N, specs, nspecs);
-      reference(want);
-      size_t written = 0, cells = 0;
-      for (int s = 0; s < nspecs; ++s) {
-        if (specs[s].kind == 0) continue;
-        for (size_t k = 0; k < want.len[s]; ++k) {
-          ++cells;
-          written += (want.arr[s][k] != (specs[s].kind == 1 ? SENTINEL : 0));
+    bool found = false;
+    for (int bi = 0; bi < nbackends; ++bi) {
+      const Backend *b = &backends[bi];
+      if (!all && std::strcmp(b->name, argv[1])) continue;
+      found = true;
+      for (int order = 0; order < ((all && b->launched && !gpuemu_race_report) ? 2 : 1); ++order) {
+        if (all) setItemOrder(order == 1);
+        const std::string label = std::string(b->name) + ((all && order == 1) ? "@desc" : "");
+        for (size_t t = 0; t < ns.size(); ++t) {
+          const int N = ns[t];
+          if (all && gpuemu_race_report && !b->launched) continue;      // the race pass only concerns device code
+          std::printf("BEGIN %s %d\n", label.c_str(), N);
+          std::fflush(stdout);
+          Data want, got;
+          allocate(want, N, specs, nspecs);
+          allocate(got, N, specs, nspecs);
+          reference(want);
+          size_t written = 0, cells = 0;
+          for (int s = 0; s < nspecs; ++s) {
+            if (specs[s].kind == 0) continue;
+            for (size_t k = 0; k < want.len[s]; ++k) {
+              ++cells;
+              written += (want.arr[s][k] != (specs[s].kind == 1 ? SENTINEL : 0));
+            }
+          }
+          std::string status = "ok", detail;
+          if (gpuemu_race_reset) {
+            gpuemu_race_reset();
+            for (int s = 0; s < nspecs; ++s) gpuemu_race_add_range(specs[s].name, got.arr[s], got.len[s] * sizeof(int));
+          }
+          try {
+            b->run(got);
+            if (!compare(got, want, specs, detail)) status = "differ";
+          } catch (...) {
+            detail = describeException();
+            status = detail.compare(0, 6, "gpuemu") == 0 ? "launch-error" : "exception";
+          }
+          if (gpuemu_race_report) {
+            const std::string races = gpuemu_race_report();
+            std::printf("M %s %d monitored_accesses=%zu\n", label.c_str(), N, gpuemu_race_accesses());
+            if (!races.empty() && status == "ok") {
+              status = "race";
+              detail = races;
+            }
+          }
+          std::printf("R %s %d %s cells=%zu written=%zu | %s\n", label.c_str(), N, status.c_str(), cells, written, oneLine(detail).c_str());
+          release(want);
+          release(got);
+          std::printf("END %s %d\n", label.c_str(), N);
+          std::fflush(stdout);
         }
       }
-      std::string status = "ok", detail;
-      try {
-        b->run(got);
-        if (!compare(got, want, specs, detail)) status = "differ";
-      } catch (...) {
-        detail = describeException();
-        status = detail.compare(0, 6, "gpuemu") == 0 ? "launch-error" : "exception";
-      }
-      std::printf("R %s %d %s cells=%zu written=%zu | %s\n", b->name, N, status.c_str(), cells, written, oneLine(detail).c_str());
-      release(want);
-      release(got);
-      std::printf("END %d\n", N);
-      std::fflush(stdout);
     }
+    if (!found) {
+      std::printf("NOBACKEND %s\n", argv[1]);
+      return 3;
+    }
+    std::printf("DONE\n");
     return 0;
   }
 }
